@@ -50,14 +50,17 @@ META = dict(
          "actions are fns and the gate flag is exactly k, for every earlier history), add_never_clears, "
          "flag_after_history / flag_without_set (full characterisation of the flag), acts_after_history, "
          "replaced_action_silent_when_trying and history_fires_only_current_actions (full strength, every history); "
-         "clear_keeps_flag records what the code does for set_parse_action(None) (flag left on - a candidate finding "
-         "reported to the lead, generators stay out of 'clear while the flag is set').",
+         "clear_resets_flag is the regression theorem of the fixed finding call_during_try_survives_clear (7688521: "
+         "set_parse_action(None) counts as a set_parse_action without actions and without the keyword).",
     note="Trusted: Lean kernel; axioms propext/Classical.choice/Quot.sound; CPython traceback frame layout (a binding "
          "failure raises at the call line with no callee frame; a Python-level body contributes its own frame) is an "
          "assumption of the model checked only differentially; the TrimArity and ActionGate models are transcriptions "
          "tied to the source by the correspondence leg; the real parser's whitespace/packrat/left-recursion machinery "
          "is outside the gating mini-model (oracle-checked only). C-level callables other than the supported builtins "
-         "are outside the property's class (their body TypeErrors are indistinguishable from binding failures).",
+         "are outside the property's class (their body TypeErrors are indistinguishable from binding failures). Also "
+         "outside the claimed class: a callable that is itself a _trim_arity wrapper, e.g. b.set_parse_action("
+         "*a.parseAction) - its own frame IS the wrapper's call line (PyLevel fails), a TypeError from the user's body "
+         "is re-probed by the outer wrapper; the generators never re-pass wrapped actions and nothing is claimed there.",
     technique="Lean 4 proof over transcribed state machine + generated call-line fact + differential correspondence",
     design="§5 C13",
 )
@@ -96,16 +99,11 @@ THEOREMS = [
     "PP.ActionGate.acts_after_history",
     "PP.ActionGate.replaced_action_silent_when_trying",
     "PP.ActionGate.history_fires_only_current_actions",
-    "PP.ActionGate.clear_keeps_flag",
+    "PP.ActionGate.clear_resets_flag",
 ]
 
 SIG_INDEX = "indexerror_after_arity_found"
-# candidate findings on the unchanged tree (reported to the lead; counted as KNOWN-FINDING only once registered in
-# known_findings.json under these signatures, otherwise just recorded in the evidence notes).  The generators stay out
-# of both regions: `set_parse_action(None)` while callDuringTry is set / an element's already wrapped parseAction
-# entries given to set_parse_action or add_parse_action again.
-SIG_CLEAR = "call_during_try_survives_clear"
-SIG_REWRAP = "rewrapped_action_typeerror_reprobed"
+SIG_CLEAR = "call_during_try_survives_clear"  # fixed in 7688521; corpus/C13/flag_after_clear*.json are its regression cases
 CORPUS = common.VERIF / "corpus" / "C13"
 
 
@@ -950,9 +948,8 @@ def op_kw(op):
 
 def hist_cfg(ops):
     """(installed actions, call_during_try) the documented way: set_parse_action replaces both, add_* append and
-    or the keyword in, set_parse_action(None) removes all actions (and what belonged to them), copy keeps.
-    Equals PP.ActionGate.runOps on every history without `clear while the flag is set` (flag_after_history,
-    acts_after_history); the generators stay out of that region."""
+    or the keyword in, set_parse_action(None) removes all actions and the flag, copy keeps
+    (PP.ActionGate.flag_after_history, acts_after_history, clear_resets_flag)."""
     acts, cdt = [], False
     for op in ops:
         o = op["op"]
@@ -963,20 +960,6 @@ def hist_cfg(ops):
         elif o == "clear":
             acts, cdt = [], False
     return acts, cdt
-
-
-def hist_in_clear_region(ops):
-    """set_parse_action(None) while callDuringTry is set (the code leaves the flag on: candidate finding)"""
-    cdt = False
-    for op in ops:
-        o = op["op"]
-        if o == "set":
-            cdt = op_kw(op)
-        elif o in ("add", "cond"):
-            cdt = cdt or op_kw(op)
-        elif o == "clear" and cdt:
-            return True
-    return False
 
 
 def op_sexp(op):
@@ -1336,19 +1319,17 @@ class TreeGen:
             ops.append(self.one_op(pre, True))
             if rng.random() < 0.3:
                 ops.append(self.one_op(rng.choice(["add", "cond", "copy", "name"]), rng.choice([None, None, False, True])))
-            ops.append(self.one_op("set", rng.choice([None, None, False])))
+            if rng.random() < 0.25:  # set_parse_action(None), then a plain action
+                ops.append({"op": "clear"})
+                ops.append(self.one_op(rng.choice(["add", "add", "cond"]), rng.choice([None, None, False])))
+            else:
+                ops.append(self.one_op("set", rng.choice([None, None, False])))
             for _ in range(rng.choice([0, 0, 1])):
                 ops.append(self.one_op(rng.choice(["add", "cond", "copy", "name"]), rng.choice([None, False])))
         else:
             for _ in range(rng.choice([1, 2, 2, 3, 4])):
                 o = rng.choice(["set", "set", "add", "add", "cond", "clear", "copy", "name"])
                 ops.append(self.one_op(o, rng.choice([None, None, None, False, True])))
-        # stay out of `set_parse_action(None)` while the flag is set
-        while hist_in_clear_region(ops):
-            for i, op in enumerate(ops):
-                if op["op"] == "clear" and hist_in_clear_region(ops[: i + 1]):
-                    ops[i] = {"op": "copy"}
-                    break
         return ops
 
     def nonnull(self, d):
@@ -1531,9 +1512,6 @@ def gen_ops_cases(ctx, n, tag="gate-ops"):
         for op in ops:
             for a in op.get("acts", ()):
                 a["kind"] = "keep"  # every installed action fires, in order, when the element matches for real
-        while hist_in_clear_region(ops):
-            i = next(i for i, op in enumerate(ops) if op["op"] == "clear" and hist_in_clear_region(ops[: i + 1]))
-            ops[i] = {"op": "copy"}
         cases.append((rng.choice(["lit", "word", "and"]), ops))
     return cases
 
@@ -1697,6 +1675,11 @@ def check_builtins(ctx, pp):
     ctx.count_cases("oracle-builtins", n, distinct_keys=[b.__name__ for b in pp.core._single_arg_builtins])
 
 
+def _tup(x):
+    """a gate tree back from JSON"""
+    return tuple(_tup(y) if isinstance(y, list) and y and isinstance(y[0], str) else y for y in x)
+
+
 def replay_witnesses(ctx, pp, cfg):
     """corpus: registered witnesses run first"""
     if not CORPUS.exists():
@@ -1726,6 +1709,21 @@ def replay_witnesses(ctx, pp, cfg):
             ctx.correspond("corpus-ops", [{"base": w["base"], "ops": w["ops"]}],
                            [sx(Sym("ops"), [op_sexp(op) for op in w["ops"]])],
                            [sx([[real, flag] for real, flag, _ in obs])])
+            continue
+        if w.get("stream") == "gate":
+            t = _tup(w["tree"])
+            bad, io = None, ""
+            for via in (False, True):
+                io, log = run_gate_real(pp, t, w["s"], w["da"], via_parse_string=via and w["da"])
+                bad = bad or oracle_gate(t, w["s"], w["da"], log)
+            ctx.count_cases("corpus", 1, distinct_keys=[p.name], samples=[{"witness": p.name, "impl": io}])
+            if bad:
+                ctx.fail_input("action fired during trial matching (corpus witness)",
+                               {"tree": w["tree"], "s": w["s"], "da": w["da"], "file": p.name}, bad[0], io, theorem=bad[1])
+            line = sx(Sym("gate"), tree_sexp(t), w["s"], bool(w["da"]))
+            io0, _ = run_gate_real(pp, t, w["s"], w["da"])
+            ctx.correspond("corpus-gate", [{"tree": sx(tree_sexp(t)), "s": w["s"], "da": w["da"]}], [line], [io0],
+                           model_outputs=[project_gate(ctx.driver.run([line])[0], acts_of(t))])
             continue
         if w.get("stream") != "trim":
             continue
@@ -1769,7 +1767,8 @@ def run(ctx):
         "1-3 invocations on the same pair of wrappers; observed: outer body runs, inner body runs, class AND identity "
         "of what leaves parse_string; gate-hist / gate-ops: elements configured through random histories of "
         "set_parse_action / add_parse_action / add_condition / set_parse_action(None) / copy / results name, each with "
-        "or without call_during_try (both spellings), matched inside every trial construct resp. compared attribute by "
+        "or without call_during_try (both spellings; set_parse_action(None) while the flag is set included since the "
+        "fix 7688521, also replayed from corpus/C13 first), matched inside every trial construct resp. compared attribute by "
         "attribute (fired ids on a real match, callDuringTry, fired ids on try_parse) after every operation")
     replay_witnesses(ctx, pp, cfg)
     check_trim(ctx, pp, cfg)
@@ -1784,29 +1783,17 @@ def run(ctx):
     hist_cases.sort(key=lambda c: len(sx(tree_sexp(c[0]))))  # small grammars first: the first failing input is readable
     seeds["gate-hist"] = check_gate(ctx, pp, stream="gate-hist", cases=hist_cases, max_fail=2)
     seeds["gate"] = check_gate(ctx, pp)
-    candidate_findings(ctx, pp)
+    outside_class_note(ctx, pp)
     if ctx.broken and not ctx.fail_inputs:
         deep_search(ctx, pp, cfg, seeds)
     ctx.assumptions.append("C13: CPython traceback layout (binding failure has no callee frame) is assumed by the model "
                            "and validated only by the correspondence run")
 
 
-def candidate_findings(ctx, pp):
-    """two histories outside the generators' region on which the unchanged tree was seen to break the statement"""
-    notes = {}
-    # A: set_parse_action(None) clears the actions, not the flag: a later plain add_parse_action runs on trial
-    ops = [{"op": "add", "acts": [{"id": 1, "kind": "keep", "shape": "def3"}], "kw": True, "spell": 0},
-           {"op": "clear"},
-           {"op": "add", "acts": [{"id": 2, "kind": "keep", "shape": "def3"}], "kw": None, "spell": 0}]
-    obs = run_ops_real(pp, "lit", ops)
-    bad = oracle_ops(ops, obs)
-    notes[SIG_CLEAR] = {"history": "e.add_parse_action(f, call_during_try=True); e.set_parse_action(None); "
-                                   "e.add_parse_action(g); e.try_parse('a')",
-                        "reproduces": bad is not None, "observed": sx([[r, f, t] for r, f, t in obs])}
-    if bad and ctx.match_known(SIG_CLEAR):
-        ctx.fail_input("action configuration after set_parse_action(None)", {"base": "lit", "ops": ops}, bad[0],
-                       notes[SIG_CLEAR]["observed"], theorem="PP.ActionGate.clear_keeps_flag", signature=SIG_CLEAR)
-    # B: b.set_parse_action(*a.parseAction): the action is a _trim_arity wrapper, its frame IS the call line
+def outside_class_note(ctx, pp):
+    """informational only: an element's already wrapped parseAction entries given to set_parse_action again make the
+    action a `_trim_arity` wrapper (its frame IS the call line): outside the claimed class of callables (META.note),
+    never generated, never reported"""
     calls = []
 
     def act(*a):
@@ -1817,17 +1804,10 @@ def candidate_findings(ctx, pp):
     b = pp.Word("ab").set_parse_action(*a.parseAction)
     try:
         b.parse_string("ab")
-        got = "returns"
-    except BaseException as x:  # noqa
-        got = classify_exc(pp, x)
-    notes[SIG_REWRAP] = {"history": "a = Word('ab').set_parse_action(act); b = Word('ab').set_parse_action(*a.parseAction); "
-                                    "b.parse_string('ab')   # def act(*a): raise TypeError",
-                         "reproduces": calls != [3], "body_runs": list(calls), "raises": got}
-    if calls != [3] and ctx.match_known(SIG_REWRAP):
-        ctx.fail_input("TypeError in the body of a re-wrapped action re-probed", notes[SIG_REWRAP], "body runs [3]",
-                       str(calls), theorem="PP.TrimArity.called_once_with_trailing_args (PyLevel fails: the action's "
-                       "frame is the wrapper's call line)", signature=SIG_REWRAP)
-    ctx.notes["candidate_findings_outside_generators"] = notes
+    except BaseException:  # noqa
+        pass
+    ctx.notes["outside_claimed_class"] = {
+        "history": "b.set_parse_action(*a.parseAction)  # def act(*a): raise TypeError", "body_runs": list(calls)}
 
 
 def deep_search(ctx, pp, cfg, seeds):
@@ -1895,9 +1875,7 @@ def replay(data):
         obs, oacc, o_is_class, iacc, i_is_class, clevel = run_nest_real(pp, *c)
         return oracle_nest(c[0], oacc, o_is_class, iacc, i_is_class, clevel, c[4], obs) is not None
     if "tree" in case:
-        def tup(x):
-            return tuple(tup(y) if isinstance(y, list) and y and isinstance(y[0], str) else y for y in x)
-        t = tup(case["tree"])
+        t = _tup(case["tree"])
         _, log = run_gate_real(pp, t, case["s"], case["da"])
         bad = oracle_gate(t, case["s"], case["da"], log)
         if not bad and case["da"]:
